@@ -273,6 +273,172 @@ def _master_loop(src: Path) -> bool:
     return clears
 
 
+# ---- behavioural fall-backs: when the source shape of a section is not recognised (a refactoring), the same facts
+# are established by running the current code itself.  The generated file says which way each section was obtained.
+def _import_tickit():
+    import importlib
+    import sys
+    root = str(SRC.parent)
+    if root not in sys.path:
+        sys.path.insert(0, root)
+    mod = importlib.import_module("tickit")
+    if not str(getattr(mod, "__file__", "")).startswith(root):
+        raise Unrecognised(f"tickit is imported from {getattr(mod, '__file__', None)}, not from {root}")
+    return mod
+
+
+def _probe_topics() -> dict:
+    """input_topic(n) == prefix + n + suffix for a battery of names (same for output_topic); '' is rejected"""
+    _import_tickit()
+    from tickit.utils.topic_naming import input_topic, output_topic
+    names = ["a", "zz", "dev1", "x-in", "out", "q_q", "tickit-", "A.b", "c:d", "e f", "g/h", "-in", "-out", "external", "expose"]
+    alpha = ["a", "_", ":", " ", "/", ".", "-", "+", "#", "Z", "7"]
+    names += [x + y for x in alpha for y in alpha]
+    out = {}
+    for key, fn in (("in", input_topic), ("out", output_topic)):
+        t = fn("a")
+        i = t.find("a")
+        cands = [(t[:j], t[j + 1:]) for j in range(len(t)) if t[j] == "a"]
+        ok = [(pre, suf) for pre, suf in cands if all(fn(n) == pre + n + suf for n in names)]
+        if len(ok) != 1:
+            raise Unrecognised(f"{fn.__name__} is not '<prefix>' + name + '<suffix>' on the probe names")
+        out[key + "_prefix"], out[key + "_suffix"] = ok[0]
+    for fn in (input_topic, output_topic):
+        try:
+            fn("")
+        except ValueError:
+            continue
+        raise Unrecognised(f"{fn.__name__}('') is accepted")
+    return out
+
+
+def _probe_startup() -> dict:
+    """what exists on the object at the moment it subscribes (i.e. when the backlog is replayed through its handler)"""
+    import asyncio
+    _import_tickit()
+    from tickit.core.components.device_component import DeviceComponent
+    from tickit.core.device import Device, DeviceUpdate
+    from tickit.core.management.event_router import InverseWiring
+    from tickit.core.management.schedulers.base import BaseScheduler
+    from tickit.core.management.schedulers.master import MasterScheduler
+
+    attrs = {1: ("state_producer",), 2: ("state_consumer",), 3: ("ticker",), 4: ("new_wakeup",), 5: ("last_time", "last_tick_time")}
+
+    def run(make, start, wanted):
+        seen = {}
+
+        class Cons:
+            def __init__(self, cb):
+                pass
+
+            async def subscribe(self, topics):
+                # state_consumer is being assigned by the very statement that created us: it exists by construction
+                seen["at"] = [r for r in wanted if r == 2 or all(hasattr(seen["obj"], a) for a in attrs[r])]
+
+        class Prod:
+            async def produce(self, topic, value):
+                pass
+
+        async def main():
+            obj = make(Cons, Prod)
+            seen["obj"] = obj
+            t = asyncio.ensure_future(start(obj, Cons, Prod))
+            for _ in range(50):
+                await asyncio.sleep(0)
+                if "at" in seen:
+                    break
+            t.cancel()
+            try:
+                await t
+            except BaseException:  # noqa
+                pass
+        asyncio.run(main())
+        if "at" not in seen:
+            raise Unrecognised("start-up probe: subscribe was never called")
+        before = seen["at"]
+        after = [r for r in wanted if r not in before]
+        return [("create", r) for r in before] + [("replay",)] + [("create", r) for r in after]
+
+    class D(Device):
+        def update(self, time, inputs):
+            return DeviceUpdate({}, None)
+
+    comp = run(lambda C, P: DeviceComponent(name="probe", device=D()), lambda o, C, P: o.run_forever(C, P), [1, 2])
+    wiring = InverseWiring({"probe": {}})
+
+    class BS(BaseScheduler):
+        async def schedule_interrupt(self, source):
+            pass
+
+    sched = run(lambda C, P: BS(wiring, C, P), lambda o, C, P: o.setup(), [3, 1, 2])
+    master = run(lambda C, P: MasterScheduler(wiring, C, P), lambda o, C, P: o.setup(), [4, 5, 3, 1, 2])
+    return dict(component=comp, scheduler=sched, master=master)
+
+
+def _probe_master_loop() -> bool:
+    """the scenario the flag logic exists for: nothing pending and a stale new_wakeup flag -- the loop must wait,
+    not fall through to its assertion; and a fresh wakeup must still get its tick"""
+    import asyncio
+    _import_tickit()
+    from tickit.core.management.event_router import InverseWiring
+    from tickit.core.management.schedulers.master import MasterScheduler
+    from tickit.core.typedefs import ComponentID, SimTime
+    res = {}
+
+    class Cons:
+        def __init__(self, cb):
+            pass
+
+        async def subscribe(self, topics):
+            pass
+
+    class Prod:
+        async def produce(self, topic, value):
+            pass
+
+    async def main():
+        s = MasterScheduler(InverseWiring({"probe": {}}), Cons, Prod)
+        await s.setup()
+        ticks = []
+
+        async def fake_ticker(when, comps):
+            ticks.append((int(when), sorted(comps)))
+        fake_ticker.time = SimTime(0)
+        s.ticker = fake_ticker
+        s.wakeups.clear()
+        s.new_wakeup.set()                      # stale flag, nothing pending
+        t = asyncio.ensure_future(s._do_tick())
+        for _ in range(20):
+            await asyncio.sleep(0)
+        res["blocked"] = not t.done()
+        res["failed"] = t.done() and not t.cancelled() and t.exception() is not None
+        if not t.done():
+            s.add_wakeup(ComponentID("probe"), SimTime(0))
+            for _ in range(40):
+                await asyncio.sleep(0)
+                if t.done():
+                    break
+            if not t.done():                    # the turn that noticed the wakeup returned; the next one ticks
+                pass
+        if t.done() and not res["failed"]:
+            t2 = asyncio.ensure_future(s._do_tick())
+            for _ in range(40):
+                await asyncio.sleep(0)
+                if t2.done():
+                    break
+            t2.cancel()
+        t.cancel()
+        res["ticks"] = ticks
+    asyncio.run(main())
+    if res.get("failed"):
+        return False
+    if not res.get("blocked"):
+        raise Unrecognised(f"_do_tick neither waits nor fails on a stale flag: {res}")
+    if res.get("ticks") != [(0, ["probe"])]:
+        raise Unrecognised(f"_do_tick does not serve a fresh wakeup after a stale flag: {res}")
+    return True
+
+
 SECTIONS = ["topics", "pseudo", "tcp", "startup", "master_loop"]
 
 
@@ -281,13 +447,27 @@ def extract() -> dict:
     the generated file (so exactly the theorems that rest on it stop compiling) and reported in errors"""
     out, errors = {}, {}
 
-    def section(name, fn):
+    how = {}
+
+    def section(name, fn, probe=None):
         try:
             out.update(fn())
+            how[name] = "source shape (ast)"
+            return
         except Unrecognised as e:
-            errors[name] = str(e)
+            msg = str(e)
         except (OSError, SyntaxError) as e:
-            errors[name] = f"cannot read / parse the source: {e!r}"
+            msg = f"cannot read / parse the source: {e!r}"
+        if probe is not None:
+            try:
+                out.update(probe())
+                how[name] = f"probing the running code (source shape not recognised: {msg})"
+                return
+            except Unrecognised as e2:
+                msg += f"; probe: {e2}"
+            except Exception as e2:  # noqa  -- the probe itself crashed on this source
+                msg += f"; probe raised {e2!r}"
+        errors[name] = msg
 
     def topics():
         tn = ast.parse((SRC / "utils/topic_naming.py").read_text())
@@ -296,13 +476,14 @@ def extract() -> dict:
         opre, osuf = _topic_parts(_func(tn, "output_topic"))
         return dict(in_prefix=ipre, in_suffix=isuf, out_prefix=opre, out_suffix=osuf)
 
-    section("topics", topics)
+    section("topics", topics, _probe_topics)
     section("pseudo", lambda: dict(pseudo=_pseudo_names(ast.parse((SRC / "core/management/schedulers/nested.py").read_text()))))
     section("tcp", lambda: dict(unknown_reply=_unknown_reply(ast.parse((SRC / "adapters/tcp.py").read_text())),
                                 read_size=_read_size(ast.parse((SRC / "adapters/io/tcp_io.py").read_text()))))
-    section("startup", lambda: dict(startup=_startup(SRC)))
-    section("master_loop", lambda: dict(master_idle_clears=_master_loop(SRC)))
+    section("startup", lambda: dict(startup=_startup(SRC)), lambda: dict(startup=_probe_startup()))
+    section("master_loop", lambda: dict(master_idle_clears=_master_loop(SRC)), lambda: dict(master_idle_clears=_probe_master_loop()))
     out["errors"] = errors
+    out["how"] = how
     return out
 
 
@@ -311,6 +492,8 @@ def render(c: dict) -> str:
              "From Coq Require Import String Ascii List ZArith Bool.", "Import ListNotations."]
     for name, msg in sorted(c["errors"].items()):
         parts.append("(* section %s NOT TRANSLATED: %s *)" % (name, msg.replace("*)", "* )").replace("(*", "( *")))
+    for name, msg in sorted(c.get("how", {}).items()):
+        parts.append("(* section %s obtained from: %s *)" % (name, msg.replace("*)", "* )").replace("(*", "( *")))
     if "in_prefix" in c:
         for k in ("in_prefix", "in_suffix", "out_prefix", "out_suffix"):
             parts.append(f"Definition {k} : list ascii := list_ascii_of_string {coq_string(c[k])}.")
